@@ -592,6 +592,35 @@ def r4_validators_run(ctx):
                           f"{kn}.read() builds the individuals before `{t}` has run: part of a refused table is already stored in the reader", construct=f"{t} before the individuals", instance=kn)
 
 
+def r9_position_and_record_registered_together(ctx):
+    """'each individual's rows stay its own': the reader stores the individuals in a dictionary (insertion order) and their positions in
+    `iter_to_idx`; everything positional downstream (Dataset.indices, the rows of every tensor) pairs the two by order.  Both are therefore
+    registered in the same loop, under the same key - numbering the individuals from another sequence than the one the records are
+    created from labels the rows with other individuals' identifiers as soon as the two orders differ."""
+    ctx.rule("C14.R9", "reader: an individual's record and its position are registered in the same loop iteration, under the same identifier", 1)
+    f = ctx.ix.func(f"{PKG}.abstract_dataframe_data_reader", "AbstractDataframeDataReader.read", "C14.R9")
+    ctx.analysed(f)
+    cfg = CFG(f.node)
+    rec = [n for n, st in cfg.stmt.items() if isinstance(st, ast.Assign) and isinstance(st.targets[0], ast.Subscript) and U(st.targets[0].value) == "self.individuals"]
+    pos = [n for n, st in cfg.stmt.items() if isinstance(st, ast.Assign) and isinstance(st.targets[0], ast.Subscript) and U(st.targets[0].value) == "self.iter_to_idx"]
+    if len(rec) != 1 or len(pos) != 1:
+        ctx.unknown("C14.R9", f, f.node, f"{len(rec)} registration(s) of a record / {len(pos)} of a position found in read() (1 / 1 confirmed)", construct="record and position together")
+        return
+
+    def loop_of(n):
+        ls = [h for h, lab in cfg.guards(n) if cfg.kind[h] == "loop" and any(x is cfg.stmt[n] for x in ast.walk(cfg.stmt[h]))]
+        return ls[-1] if ls else None
+    lr, lp = loop_of(rec[0]), loop_of(pos[0])
+    same_loop = lr is not None and lr == lp
+    same_key = U(cfg.stmt[rec[0]].targets[0].slice) == U(cfg.stmt[pos[0]].value)
+    uncond = not [1 for n in (rec[0], pos[0]) for h, lab in cfg.if_guards(n) if lr is not None and any(x is cfg.stmt[h] for x in ast.walk(cfg.stmt[lr]))]
+    ctx.check(same_loop and same_key and uncond, "C14.R9", f, cfg.stmt[pos[0]], "record and position registered together, for every individual of the loop",
+              ("the positions `iter_to_idx` are filled in another loop than the records `individuals`" if not same_loop else
+               "the position is registered under another identifier than the record" if not same_key else "one of the two registrations is conditional") +
+              ": the order of the records and the numbering of the individuals can differ, and every positional consumer (Dataset.indices, rows of the tensors) then labels an individual's rows "
+              "with another individual's identifier", construct="record and position together")
+
+
 def rules(ctx):
     r1_copy(ctx)
     r2_refusals(ctx)
@@ -602,6 +631,7 @@ def rules(ctx):
     r7_column_writes_keep_rows(ctx)
     r8_event_code_codec(ctx)
     r4_validators_run(ctx)
+    r9_position_and_record_registered_together(ctx)
     ctx.trust("pandas copy(deep=True), groupby(sort=False), round, is_unique semantics; bisect")
 
 
